@@ -114,6 +114,24 @@ theorem agreeB_iff (g : Group) : agreeB g = true ↔ Agree g := by
   · intro h
     exact ⟨h.sorted, h.bcKeys, h.csKeys, h.lists, h.own₁, h.own₂, h.cnt₁, h.cnt₂, h.bmin, h.bmax, h.total⟩
 
+/-- WITNESS at history level: `>` by c1, XGROUP SETID back to 0-0, `>` by c2 — the pinned code ends in a state
+    whose representations disagree (1-0 is owned by c2 in entries_by_id but still in c1's vector; total 2). -/
+theorem representations_agree_fails_after_setid_back :
+    ¬ Agree (Code.run Quirks.pinned (Code.init Quirks.pinned [(1, 0)] (1, 0) (0, 0))
+        [.g (.read 1 none none false), .g (.setid (0, 0)), .g (.read 2 none none false)]).grp := by
+  rw [← agreeB_iff]; decide
+
+/-- WITNESS at history level: `>` then XREADGROUP with the explicit id 0 by the same consumer — on the pinned tree
+    1-0 is twice in c1's vector and pending_count is 2 for one pending row; the repaired code leaves the state alone. -/
+theorem representations_agree_fails_after_explicit_id_read :
+    ¬ Agree (Code.run Quirks.pinned (Code.init Quirks.pinned [(1, 0)] (1, 0) (0, 0))
+        [.g (.read 1 none none false), .g (.read 1 (some (0, 0)) none false)]).grp ∧
+    Agree (Code.run Quirks.fixed (Code.init Quirks.fixed [(1, 0)] (1, 0) (0, 0))
+        [.g (.read 1 none none false), .g (.read 1 (some (0, 0)) none false)]).grp := by
+  constructor
+  · rw [← agreeB_iff]; decide
+  · rw [← agreeB_iff]; decide
+
 /-! ### 2. Exactly-once delivery under `>` -/
 
 /-- THE PROPERTY (prescribed behaviour): for a group created at `start` over any strictly sorted stream, after ANY
